@@ -105,6 +105,15 @@ CLAIMED = {
          "SUB matches with bytes.HasPrefix(body, subscription) over all current subscriptions (true iff some prefix hit); the receiver visits every context under the lock and enqueues iff matches(m); unsubscribe keeps exactly the still-matching queued messages, evaluated after the removal; subscriptions are private copies; delivered messages are made unique; "
          "PUB visits every pipe (no early exit) with Clone + non-blocking send, drops the new copy on overflow while SUB drops the oldest. Histories of subscribe/publish and overflow loss are not enumerated.",
          "Anchored in protocol/sub and protocol/xpub.", "DESIGN.md 4/C06"),
+ "C07": ("static analysis: anchored shape rules over SSA of protocol/surveyor, E10b close/send typestate, natural-loop completeness, E5, timer-from-option guard rule",
+         "Responses are matched by the moved id word via a comma-ok lookup and queued non-blockingly within that critical section; cancel runs once, stops the timer, clears the context's current survey only if it is this one, unregisters the id under the lock before closing and draining the queue; "
+         "a new survey is registered before the previous one is cancelled with ErrCanceled; the survey reaches every pipe of a snapshot with balanced Clone/Free; Recv without a survey returns ErrProtoState before any wait and a finished survey reports its own cause; the expiry timer is armed only for a positive survey time. "
+         "Expiry timing and arrival orders are not decided.",
+         "One genuine defect repaired (SURVEY-TIME 0 expired at once), see known_findings.json.", "DESIGN.md 4/C07"),
+ "C08": ("static analysis: anchored shape rules, natural-loop completeness, path-condition predicate of the STAR drop test, E5, E6d incl. not-over-strict length checks",
+         "xbus.SendMsg visits every pipe and queues a copy only when the pipe id differs from the source id (header word of a forwarded message, else 0), the receiver records the arrival pipe; cooked BUS strips headers and never forwards; "
+         "xstar forwards a private copy to every pipe but the arrival pipe, delivers its own copy upward, counts the hop and drops exactly when len<4, reserved bytes != 0 or hops >= ttl (an empty payload passes); STAR sends need the 4-byte header. Topology-level exactly-once is not decided.",
+         "Anchored in the bus/xbus/star/xstar packages.", "DESIGN.md 4/C08"),
 }
 
 NOT_YET = "check not built yet (work in progress; planned static rules in DESIGN.md section 4)"
